@@ -19,6 +19,7 @@ import (
 func init() {
 	register("C02", checkC02)
 	replayers["c02/cube"] = replayC02
+	replayers["c02/firstuse"] = replayFirstUse
 }
 
 type c02Case struct {
@@ -322,7 +323,7 @@ func checkC02(c *Ctx) {
 		}
 	}
 	fs := c02FSet(c.Quick())
-	c.Rule = fmt.Sprintf("for each of the %d encodings refz80 classifies as ALU8/INC/DEC/NEG/CPL/DAA/SCF/CCF/RLCA..RRA/CB rotate-shift/RLD/RRD/BIT/SET/RES: the complete cube of the values the operation reads (A x operand x F for binary forms and RLD/RRD, operand x F for unary forms and BIT/SET/RES, A x F for accumulator forms), operand delivered through the encoding's own route (register, (HL), immediate, IXH..IYL, (IX+d)/(IY+d) with d in {00,01,7F,80}); F over %d values (quick: C,H,N in all combinations x other bits all-0/all-1, plus a second pass over 26 boundary values of A and of the operand x ALL 256 F; thorough: all 256 F on the complete cube); all other registers hold distinct junk from a base vector and must be unchanged. Non-trivial = result or flags differ from the inputs (counted).", len(encs), len(fs))
+	c.Rule = fmt.Sprintf("for each of the %d encodings refz80 classifies as ALU8/INC/DEC/NEG/CPL/DAA/SCF/CCF/RLCA..RRA/CB rotate-shift/RLD/RRD/BIT/SET/RES: the complete cube of the values the operation reads (A x operand x F for binary forms and RLD/RRD, operand x F for unary forms and BIT/SET/RES, A x F for accumulator forms), operand delivered through the encoding's own route (register, (HL), immediate, IXH..IYL, (IX+d)/(IY+d) with d in {00,01,7F,80}); F over %d values (quick: C,H,N in all combinations x other bits all-0/all-1, plus a second pass over 26 boundary values of A and of the operand x ALL 256 F; thorough: all 256 F on the complete cube); all other registers hold distinct junk from a base vector and must be unchanged. First-use pass: each of these encodings as the very first instruction of 2 fresh processes (all flags clear / all flags set), then swept over the quick lattice x 4 F against refz80 in that process. Non-trivial = result or flags differ from the inputs (counted).", len(encs), len(fs))
 	c.Bound = fmt.Sprintf("complete A x operand cube, %d F values", len(fs))
 	bg := obsBackground(c)
 	type job struct {
@@ -425,6 +426,7 @@ func checkC02(c *Ctx) {
 	c.Set("encodings_checked", len(encs))
 	c.Set("cube_jobs", len(jobs))
 	c.Set("f_values", len(fs))
+	runFirstUse(c, "c02/firstuse", encs)
 	c.Exhaustive = true
 	c.Sample(c02Case{"DD 8E (ADC A,(IX+d))", 0x80, 0x7F, 0x80, 0x01, 0})
 	c.Sample(c02Case{"27 (DAA)", 0, 0x9A, 0x9A, 0x13, 1})
